@@ -7,8 +7,8 @@ ID = 'C02'
 COQ_DIR = 'C02'
 COQ_HEADER = 'From V Require Import Common.Num C02.Model.\nOpen Scope Q_scope.'
 RULE = ('stub property package of three user-defined chemicals with exact enthalpy H = sum n_i Cn_i (T - 298.15), Cn = 64, 32, 128; '
-        'stores of 2-5 streams (single-phase l/g/s/L and two-phase MultiStreams, dyadic flows incl. empty streams, T = 300..400 K '
-        'in quarters, five pressures).  kinds: mix (Stream.mix_from with the real solver: 1-4 inlets, empty inlets, None, Heat/Power '
+        'stores of 2-5 streams (single-phase l/g/s/L and two-phase g/l MultiStreams, also as receivers of s/L inlets; dyadic flows '
+        'incl. empty streams and 1/1024..1024; T = 300..400 K in quarters, six pressures).  kinds: mix (Stream.mix_from with the real solver: 1-4 inlets, empty inlets, None, Heat/Power '
         'objects, receiver among the inlets 0-2 times, Q in {0, +-dyadic}), mixs (the same with solve_T_at_HP/xsolve_T_at_HP replaced '
         'by a scripted solver keyed on the phases, so that the phase-flip fallback of the H setter and the convert-to-multi-phase '
         'fallback of mix_from run), sep (separate_out), set (H / h / S / Hnet setters, real and scripted solver, assigning a new value '
@@ -22,14 +22,19 @@ ASSUMPTIONS = [
     'solve_fix: when the guess already satisfies the equation the solver returns the guess (used only by C02_setH_idem)',
     'homogeneity: mixture.H and mixture.S are homogeneous of degree one in mol (Stream.H is total * H(mol/total), the setter solves '
     'H(mol) = target); holds for IdealMixture (C07), proved here for the linear stub',
-    'float rounding is not modelled: values compared to 1e-9 relative',
+    'H of an all-zero mol vector is 0 and the upper-case phases L / S use the property models of l / s (used only for one '
+    'non-empty single-phase inlet copied into a MultiStream receiver); both hold for PhaseHandle / IdealMixture',
+    'the stream after the operation is non-empty (total flow != 0): with flows of both signs the total can cancel, and then '
+    'Stream.H reads 0 whatever was assigned',
+    'float rounding is not modelled: values compared to 1e-9 relative (H is not compared where the float evaluation of '
+    'C*(T - 298.15) cancels to < 1e-5 of C*T)',
 ]
 TRUSTED = [
     'model coq/C02/Model.v is hand-written from thermosteam/_stream.py (mix_from, separate_out, H/h/S/Hnet, copy_like, phases setter), '
     '_multi_stream.py (H/h/S setters, phase getter), indexer.py (mix_from, separate_out, copy_like for one property package), '
     'mixture/mixture.py (iter_T_at_HP/SP, solve_T_at_HP); tie = correspondence check',
     'the property cache of _get_property is treated as transparent (C14)',
-    'streams of one property package only; phase-set expansion inside MaterialIndexer.mix_from/copy_like is C01/C13 and returns an error in this model (never generated)',
+    'streams of one property package only (other packages: C01); MaterialIndexer.copy_like between MultiStreams of different phase sets is not modelled (returns an error; never generated)',
     'vle=True and conserve_phases=True arguments of mix_from are not modelled',
 ]
 
@@ -119,19 +124,13 @@ TMIN = 50     # the stub's enthalpy is only defined for T > 0: targets that need
 def gen_mix(rng, scripted, fail_single=False):
     n = rng.randint(2, 5)
     multi_recv = rng.random() < 0.2 and not fail_single
-    phases = 'llgglg' if (multi_recv or rng.random() < 0.7) else 'llgglgsL'
+    phases = 'llgglg' if rng.random() < 0.7 else 'llgglgsL'
     streams = [gen_stream(rng, phases=phases) for _ in range(n)]
     r = rng.randrange(n)
     if multi_recv and not streams[r]['multi']:
         streams[r] = gen_stream(rng, multi_p=1.)
     if fail_single and streams[r]['multi']:
         streams[r] = gen_stream(rng, multi_p=0., phases='lg')
-    if streams[r]['multi']:
-        for s in streams:           # inlet phases outside the receiver's phases are C01's subject
-            if not s['multi']:
-                ph, = s['rows']
-                if ph not in 'gl':
-                    s['rows'] = {rng.choice('gl'): s['rows'][ph]}
     k = rng.choice([1, 1, 2, 2, 2, 3, 3, 4])
     others = [['s', rng.randrange(n)] for _ in range(k)]
     if rng.random() < 0.35:
@@ -142,10 +141,6 @@ def gen_mix(rng, scripted, fail_single=False):
         others.insert(rng.randrange(len(others) + 1), [rng.choice(['heat', 'power']), float(rng.choice(QS[3:]))])
     if rng.random() < 0.08:
         others.insert(rng.randrange(len(others) + 1), ['none'])
-    if not streams[r]['multi'] and 's' in streams[r]['rows'] and any(streams[o[1]]['multi'] for o in others if o[0] == 's'):
-        # copy_like of a multi-phase source into a stream whose phase the source lacks raises UndefinedPhase and leaves a
-        # corrupt object (C13/C01 finding); not this property's subject
-        streams[r]['rows'] = {'l': streams[r]['rows']['s']}
     case = {'kind': 'mixs' if scripted else 'mix', 'streams': streams, 'r': r, 'others': others, 'Q': float(rng.choice(QS))}
     ne = [streams[o[1]] for o in others if o[0] == 's' and not is_empty(streams[o[1]])]
     if ne and not scripted:
